@@ -45,7 +45,7 @@ def demo_flags(demo_src):
 
 
 def run_demo(exe):
-    env = dict(os.environ, ASAN_OPTIONS='detect_leaks=0:abort_on_error=0', TSAN_OPTIONS='exitcode=66')
+    env = dict(os.environ, ASAN_OPTIONS='detect_leaks=0:abort_on_error=0', TSAN_OPTIONS='exitcode=66', UBSAN_OPTIONS='halt_on_error=1:exitcode=67')
     try:
         r = subprocess.run([exe], stdout=subprocess.PIPE, stderr=subprocess.STDOUT, text=True, errors='replace', timeout=300, env=env)
         return r.returncode, r.stdout[-1500:]
